@@ -80,3 +80,21 @@ for d in sorted(glob.glob('/verif/seeded/*')):
     rows.append(f"| {name} | {N[name][0]} | {', '.join(caught) or '—'} | {sig} | {H.get(name,'')} |")
 print("| seed | change | caught by (quick) | first signature | history |\n|---|---|---|---|---|")
 print('\n'.join(rows))
+
+# ---- splice the tables into DESIGN.md
+import io
+table="| seed | change | caught by (quick) | first signature | history |\n|---|---|---|---|---|\n"+'\n'.join(rows)
+d=open('/verif/DESIGN.md').read()
+b,e='<!-- SEEDTABLE:BEGIN -->','<!-- SEEDTABLE:END -->'
+if b in d and e in d:
+    d=d[:d.index(b)+len(b)]+'\n'+table+'\n'+d[d.index(e):]
+mt="| mutant | property | result | first signature |\n|---|---|---|---|\n"
+try:
+    for l in open('/verif/selfcheck/results.tsv'):
+        f=l.rstrip('\n').split('\t')
+        if len(f)>=4: mt+=f"| {f[0]} | {f[1]} | {f[2]} {f[3]} | {f[4] if len(f)>4 else ''} |\n"
+except FileNotFoundError: pass
+b,e='<!-- MUTANTTABLE:BEGIN -->','<!-- MUTANTTABLE:END -->'
+if b in d and e in d:
+    d=d[:d.index(b)+len(b)]+'\n'+mt+d[d.index(e):]
+open('/verif/DESIGN.md','w').write(d)
